@@ -1,38 +1,10 @@
-"""Per-property check definitions (which specs, which suites, which tiers)."""
-TYS = ['rat', 'f64', 'cx', 'i64']
-
-
-def _with_types(tys, suite):
-    def f(c, n):
-        out = []
-        for t in (tys if isinstance(tys, list) else [tys[n % len(tys)]]):
-            d = dict(c)
-            d['ty'] = t
-            d['suite'] = suite
-            out.append(d)
-        return out
-    return f
-
-
-def c03(ctx):
-    q = ctx.quick
-    ctx.tlc_mc('MC_Dense', 'MC_Dense_quick.cfg' if q else 'MC_Dense.cfg', label='every editing history (depth 2/3) on shapes 0..2/0..3 x 0..2/0..3; shape invariant + algebraic laws in every state')
-    # spec -> impl: every behaviour of the model replayed on the real Matrix<T>
-    gen = ctx.tlc_cases('MC_Dense', 'Gen_Dense_quick.cfg' if q else 'Gen_Dense.cfg', transform=_with_types(tuple(TYS) if q else TYS, 'dense'), name='gen_dense')
-    ev = ctx.exec('dense', gen)
-    nt = lambda e: (e.get('panic') or (e.get('post', {}).get('d')) or e.get('rm', {}).get('d') or e.get('rv'))
-    ctx.validate('Trace_Dense', ev, gen, 'dense', nontrivial=nt)
-    ctx.exhaustive_parts.append('all model behaviours of length %d on shapes 0..2 x 0..2 replayed on the real Matrix' % (2 if q else 3))
-    # impl -> spec: all shapes 0..8 exhaustively + long random histories
-    cases = ctx.gen('dense')
-    ev = ctx.exec('dense', cases)
-    ctx.validate('Trace_Dense', ev, cases, 'dense', nontrivial=nt)
-    ctx.exhaustive_parts.append('all 729 product shapes (r,k,c) in 0..8 and all 81 shapes (r,c) in 0..8 for every other operation')
-    return ctx.finish(
-        rule='cases: (i) every TLC-enumerated editing history of the Dense model, (ii) matrix products for all (r,k,c) in 0..8^3, (iii) a 40-operation history per shape (r,c) in 0..8^2, '
-             '(iv) random histories of 50-200 operations incl. out-of-range arguments; element types Rat/f64/Complex<f64>/i64. An event is non-trivial if it panics or touches a non-empty operand/result; '
-             'distinct = distinct (operation, arguments, operand, outcome) tuples.',
-        trusted=['harness projection of Matrix<T> to integers (harness/src/util.rs jmat)', 'TLC', 'Dense.tla operators as the reference definitions'])
-
-
-CHECKS = {'C03': c03}
+"""Discovers the per-property check modules bin/props_d/cNN.py (each defines PID, CLAIM, check(ctx))."""
+import importlib, os, sys
+_d = os.path.join(os.path.dirname(os.path.abspath(__file__)), 'props_d')
+sys.path.insert(0, _d)
+CHECKS, CLAIMS = {}, {}
+for _f in sorted(os.listdir(_d)):
+    if _f.endswith('.py') and not _f.startswith('_'):
+        _m = importlib.import_module(_f[:-3])
+        CHECKS[_m.PID] = _m.check
+        CLAIMS[_m.PID] = _m.CLAIM
